@@ -94,6 +94,8 @@ def opPkcs8 : OpFn := fun _ inp out => do
         if marshalEc ⟨c, d, pub⟩ != written then corr2 := false
       | _ => corr2 := false
     | _, _ => corr2 := false
+  if readErr && (out.getObjValAs? Bool "keyWithError").toOption == some true && specFail.isNone then
+    specFail := some "C17: input that is not a valid key is rejected with an error, but a key object is handed back with it (callers that keep partial results import it)"
   let br := kind ++ ":" ++ form ++ (if readErr then ":rejected" else "")
   pure { corr := corr2, spec := specFail.isNone, clause := specFail.getD (if corr2 then "" else "PKCS#8 reader or writer differs from model"),
          nontrivial := !readErr, branch := br, model := match model with | .ok (.ec c d) => Json.mkObj [("curve", c.name), ("d", toString d)] | .ok (.rsa _) => "rsa" | .error e => Json.str ("error: " ++ e),
@@ -144,8 +146,13 @@ def opPemFile : OpFn := fun _ inp out => do
     | some h => Pem.exportFile h (some matCert) (some matKey) none == gopkiFile
     | none => false
   let raw := (inp.getObjValAs? String "raw").toOption.getD ""
+  -- the stored configuration hash as gopki's Open reads it from this text ("h" ++ hex, "" = none, "-" = not observed)
+  let implHash : String := (out.getObjValAs? String "storedHash").toOption.getD "-"
+  let modelHash : String := match Pem.readHash text with | some h => "h" ++ bytesToHex h | none => ""
+  let hashAgrees := implHash == "-" || implHash == modelHash
   let modelFail : Option String :=
-    if !decodeAgrees then some "the model of pem.Decode reads other blocks from this text than the standard library"
+    if !hashAgrees then some s!"the model reads the stored hash '{modelHash}' from this text, gopki reads '{implHash}'"
+    else if !decodeAgrees then some "the model of pem.Decode reads other blocks from this text than the standard library"
     else if !encodeAgrees then some "the model of pem.Encode writes another text for a block than the standard library"
     else if !fileAgrees then some "the file gopki wrote is not hash line + certificate block + key block as the model writes them"
     else none
